@@ -23,7 +23,9 @@ RULE = ("digraphs of 2..8 nodes (10 thorough): random multigraphs (parallel/anti
         "source/out of the sink, self-loops, zero capacities, unreachable parts, terminals without arcs, "
         "int/str/mixed labels, 2- and 3-tuples), layered DAGs with shortcuts, and the structured family "
         "'two disjoint s-t paths + a crossing arc that BFS takes first' whose maximum needs a reverse residual "
-        "arc with and without an explicit reverse key; non-trivial = the mirror made >= 2 augmentations or "
+        "arc with and without an explicit reverse key, and (15 % of the cases) anti-parallel pairs u<->v where f units "
+        "first go over v->u and a later shortest path pushes max(f, cap(u,v)) < d <= cap(u,v)+f through u->v (partial "
+        "cancellation, counted as `partial_cancel`); non-trivial = the mirror made >= 2 augmentations or "
         "cancelled flow on a reverse arc; distinct by canonical (graph, source, sink)")
 FN = "max_flow"
 
@@ -169,13 +171,66 @@ def gen_cross(rng, big):
     return _finish(rng, n, arcs, 0, t, shuffle_keys=rng.random() < 0.3)
 
 
+def gen_antiparallel(rng, big):
+    """anti-parallel pair u<->v with different capacities: BFS first routes f units over v->u (the unique
+    shortest path s ~> v -> u ~> t, whose end arcs it saturates), and the next shortest augmenting path runs
+    s ~> u -> v ~> t through the residual cap(u,v) + f with a bottleneck d, max(f, cap(u,v)) < d <= cap(u,v) + f:
+    the augmentation must cancel f on v->u *and* push d - f forward on u->v (`0 < flow[v][u] < path_flow`)."""
+    f = rng.randint(1, 4)
+    c = rng.randint(1, 4)                      # cap(u, v)
+    d = rng.randint(max(f, c) + 1, c + f)      # bottleneck of the second path
+    cvu = f + rng.choice([0, 0, 1, 3])         # cap(v, u) >= f
+    big_ = lambda: d + rng.choice([0, 0, 1, 2, 5])
+    s, v, u, t = 0, 1, 2, 3
+    nid = 4
+    la = rng.choice([1, 1, 2]) if not big else rng.choice([1, 2, 3])   # chain s ~> u (besides s -> v)
+    lb = rng.choice([1, 1, 2]) if not big else rng.choice([1, 2, 3])   # chain v ~> t (besides u -> t)
+    A = list(range(nid, nid + la)); nid += la
+    B = list(range(nid, nid + lb)); nid += lb
+    n = nid
+    # per-node order matters for ties: s lists v first, v lists u first
+    arcs = [(s, v, f), (v, u, cvu), (u, t, f), (u, v, c)]
+    chain_a = [s] + A + [u]
+    chain_b = [v] + B + [t]
+    caps_a = [big_() for _ in range(len(chain_a) - 1)]
+    caps_b = [big_() for _ in range(len(chain_b) - 1)]
+    # exactly one arc of the second path carries the bottleneck d (the others are at least d)
+    k = rng.randrange(len(caps_a) + len(caps_b))
+    if k < len(caps_a):
+        caps_a[k] = d
+    else:
+        caps_b[k - len(caps_a)] = d
+    arcs += [(chain_a[i], chain_a[i + 1], caps_a[i]) for i in range(len(chain_a) - 1)]
+    arcs += [(chain_b[i], chain_b[i + 1], caps_b[i]) for i in range(len(chain_b) - 1)]
+    limit = 10 if big else 8
+    r = rng.random()
+    if r < 0.35:      # context: zero-capacity and backward arcs, parallel copies of the pair
+        for _ in range(rng.randint(1, 3)):
+            x, y = rng.sample(range(n), 2)
+            arcs.append((x, y, 0))
+        if rng.random() < 0.5:
+            arcs.append((v, u, 0))
+    elif r < 0.55 and n < limit:   # an extra node hanging off the construction
+        w = n
+        n += 1
+        arcs.append((rng.randrange(n - 1), w, rng.randint(1, 5)))
+        if rng.random() < 0.5:
+            arcs.append((w, rng.choice([x for x in range(n - 1) if x not in (s, t)]), rng.randint(0, 1)))
+    elif r < 0.7:     # random noise that may or may not destroy the pattern
+        x, y = rng.sample(range(n), 2)
+        arcs.append((x, y, _cap(rng)))
+    return _finish(rng, n, arcs, s, t, shuffle_keys=rng.random() < 0.5)
+
+
 def gen_case(rng, big):
     r = rng.random()
-    if r < 0.45:
+    if r < 0.38:
         return gen_random(rng, big)
-    if r < 0.7:
+    if r < 0.60:
         return gen_layered(rng, big)
-    return gen_cross(rng, big)
+    if r < 0.85:
+        return gen_cross(rng, big)
+    return gen_antiparallel(rng, big)    # fixed share (15 %) in both tiers
 
 
 def edge_cases():
@@ -189,6 +244,9 @@ def edge_cases():
     yield {"graph": [["s", [["a", 1], ["c", 1]]], ["a", [["b", 1], ["d", 1]]], ["c", [["b", 1]]], ["b", [["t", 1]]],
                      ["d", [["t", 1]]]], "source": "s", "sink": "t"}
     yield {"graph": [[0, [[1, 2], [0, 4]]], [1, [[2, 2], [0, 1]]], [2, [[1, 1]]]], "source": 0, "sink": 2}
+    # partial cancellation on an anti-parallel pair: 2 units go v->u first, then 3 units come through u->v (cap 1)
+    yield {"graph": [["s", [["v", 2], ["a", 3]]], ["v", [["u", 2], ["b", 3]]], ["a", [["u", 3]]], ["u", [["t", 2], ["v", 1]]],
+                     ["b", [["t", 3]]]], "source": "s", "sink": "t"}
 
 
 # ---------------------------------------------------------------------------
@@ -242,12 +300,14 @@ def has_missing_reverse_key(arcs):
 
 def judge(ctx, case, out, req, problem, reply):
     rep = {"case": case, "impl": out, "model": reply}
-    m_value, m_flow, m_vis, m_augs, m_cancels, m_done, m_cert, ichk = reply
+    m_value, m_flow, m_vis, m_augs, m_cancels, m_done, m_cert, ichk, m_partial = reply
     if not (m_done and m_cert):
         raise Infra(f"C08 model did not certify its own answer (done={m_done}, cert={m_cert}) on {case}")
     ctx.count("cert_checked_model")
     canon = [case["graph"], case["source"], case["sink"]]
     nontrivial = m_augs >= 2 or m_cancels >= 1
+    if m_partial:     # an augmentation met 0 < flow[v][u] < path_flow (cancel partly, push the rest forward)
+        ctx.count("partial_cancel")
     ctx.count(f"augmentations:{min(m_augs, 6)}{'+' if m_augs >= 6 else ''}")
     if m_cancels:
         ctx.count("reverse_arc_cancelled")
@@ -272,8 +332,13 @@ def judge(ctx, case, out, req, problem, reply):
         ctx.fail(FN, "flow_on_unknown_node", "flow key outside the node set (verified checker chkKeys)", rep)
     if not capok:
         bad = True
-        ctx.fail(FN, "capacity_violated", "returned flow is negative or exceeds a pooled arc capacity "
-                 "(verified checker chkCap)", rep)
+        pooled = {}
+        for a, b, c in req[2]:
+            pooled[(a, b)] = pooled.get((a, b), 0) + c
+        inv = {i: lab for lab, i in fc.index_map(case["graph"], extra=(case["source"], case["sink"])).items()}
+        over = [f"flow {x} on arc ({inv[a]!r}, {inv[b]!r}) of pooled capacity {pooled.get((a, b), 0)}"
+                for a, b, x in req[5] if x < 0 or x > pooled.get((a, b), 0)]   # explanation only
+        ctx.fail(FN, "capacity_violated", "verified checker chkCap rejects the returned flow: " + "; ".join(over[:3]), rep)
     if not cons:
         bad = True
         ctx.fail(FN, "not_conserved", "inflow != outflow at a node other than source/sink (verified checker chkCons)", rep)
@@ -300,14 +365,61 @@ def judge(ctx, case, out, req, problem, reply):
     ctx.case(canon, nontrivial, {"case": case, "impl": r, "model_value": m_value, "cut": m_vis, "augmentations": m_augs})
 
 
-def run_cases(ctx, cases):
+def evaluate(cases, ctx=None):
+    """run implementation and model on `cases`; per case the list of failed R_prop clauses"""
     outs = run_pool(impl, cases, timeout=20.0)
     prepared = [prepare(c, o) for c, o in zip(cases, outs)]
-    replies = Driver("Flow").run([p[0] for p in prepared], chunks=8)
+    replies = Driver("Flow").run([p[0] for p in prepared], chunks=8 if len(cases) > 200 else 1)
+    res = []
     for c, o, (req, problem), rp in zip(cases, outs, prepared, replies):
         if rp and rp[0] == "error":
             raise Infra(f"model rejected request: {rp} for {c}")
-        judge(ctx, c, o, req, problem, rp)
+        col = fc.Collector(ctx)
+        judge(col, c, o, req, problem, rp)
+        res.append(col.fails)
+    return res
+
+
+def candidates(case):
+    """single-step reductions: drop an arc, drop an empty key, lower a capacity, plain labels"""
+    g = case["graph"]
+
+    def with_graph(g2):
+        return {**case, "graph": g2}
+
+    def copy():
+        return [[u, [list(a) for a in lst]] for u, lst in g]
+    for i in range(len(g) - 1, -1, -1):
+        for j in range(len(g[i][1]) - 1, -1, -1):
+            g2 = copy()
+            a = g2[i][1].pop(j)
+            yield f"drop arc {g[i][0]!r}->{a[0]!r}", with_graph(g2)
+        if not g[i][1]:
+            g2 = copy()
+            del g2[i]
+            yield f"drop key {g[i][0]!r}", with_graph(g2)
+    for i in range(len(g)):
+        for j, a in enumerate(g[i][1]):
+            for nv in sorted({0, 1, a[1] - 1}):
+                if 0 <= nv < a[1]:
+                    g2 = copy()
+                    g2[i][1][j][1] = nv
+                    yield f"capacity {g[i][0]!r}->{a[0]!r}: {a[1]} -> {nv}", with_graph(g2)
+            if len(a) > 2:
+                g2 = copy()
+                g2[i][1][j] = a[:2]
+                yield f"2-tuple {g[i][0]!r}->{a[0]!r}", with_graph(g2)
+
+
+def shrink_one(case, failure):
+    import time
+    key = (failure[0], failure[1])
+    small, history = fc.shrink(case, key, candidates, evaluate, time.time() + 12.0)
+    return (evaluate([small])[0] if history else []), history, case
+
+
+def run_cases(ctx, cases, do_shrink=True):
+    fc.report(ctx, cases, evaluate(cases, ctx), shrink_one if do_shrink else None)
 
 
 def excluded_region(ctx):
@@ -319,7 +431,7 @@ def excluded_region(ctx):
 
 def _summarise(ctx):
     h = ctx.cov["histogram"]
-    for k in ("cert_checked_model", "cert_checked_impl", "r_prop_agree", "r_trace_agree"):
+    for k in ("cert_checked_model", "cert_checked_impl", "r_prop_agree", "r_trace_agree", "partial_cancel"):
         ctx.cov[k] = h.get(k, 0)
     ctx.cov["timeouts"] = sum(v for k, v in h.items() if k.startswith("fail:") and ":no_return" in k)
 
@@ -339,5 +451,5 @@ def run(ctx, budget):
 
 def replay(ctx, body):
     ctx.cov["rule"] = RULE
-    run_cases(ctx, [body["case"]])
+    run_cases(ctx, [body["case"]], do_shrink=False)
     _summarise(ctx)
